@@ -53,7 +53,7 @@ CLAIMED = {
          "Complete for the stated space. The f32 conversions use the top 24 bits of a next_u32 served from the top of the script word."),
  "C14": ("model_checking", "explicit-state exploration of all call histories up to a depth over {A, clone, equal rebuild, sibling, other family} x two cursors on one word sequence, executed on the real objects with a differential oracle between histories",
          "H", "DESIGN.md §5-C14",
-         "For a spread of cases covering every family and representation variant (all cases in the thorough tier): all 10^4 (quick) call sequences; a table keyed by (parameter class, cursor before) must receive the same (result bits, cursor after) from every history; Debug/== unchanged after sampling; sample_iter agrees with repeated sample, also when sample / sample_iter are written with method syntax on 41 concrete types (where an inherent method would shadow the trait's).",
+         "For a spread of cases covering every family and representation variant (all cases in the thorough tier): all 10^4 (quick) call sequences; a table keyed by (parameter class, cursor before) must receive the same (result bits, cursor after) from every history; Debug/== unchanged after sampling; values that compare equal (a case and its sibling of the same family) sample identically; sample_iter agrees with repeated sample, also when sample / sample_iter are written with method syntax on 41 concrete types (where an inherent method would shadow the trait's).",
          "Single-threaded histories (the crate has no synchronisation to schedule)."),
  "C15": ("exploration", "enumeration of every serde-enabled type x representation variant: JSON and value-tree round trips, equality, and identical sampling on base streams and all single-word deviations at the first requests",
          "F+D", "DESIGN.md §5-C15",
